@@ -597,6 +597,12 @@ fn e8() -> Vec<Case> {
     out
 }
 
+/// the operator families (every operator x every pair of operand kinds, unparenthesised chains): also run by
+/// C10 on every build configuration
+pub fn operator_cases() -> Vec<Case> {
+    e1().into_iter().chain(e2(false)).chain(e3(false)).collect()
+}
+
 pub fn cases_for_c04(thorough: bool) -> Vec<Case> {
     witnesses().into_iter().chain(e4()).chain(e5(if thorough { 5 } else { 4 })).chain(e6()).chain(e7()).chain(e8()).collect()
 }
@@ -626,6 +632,16 @@ pub fn run(ctx: &Ctx) -> Report {
         crate::pool::machinery_failure("more than 5% of generated programs were rejected by the compiler: the generator explores nothing");
     }
     report.violations = stats.violations;
+    // the operator families once more on the optimised build of the runner: what an operator answers is a
+    // function of its operands, not of the build (unchecked conversions, wrapping arithmetic)
+    {
+        let hooks = Hooks { attribute: &|_c, _m, _o, _mm| None, nontrivial: &|_c, _m| true, fuel: 2_000_000 };
+        let cases = operator_cases();
+        let n = cases.len();
+        let st = mcheck::run_on(ctx, &ctx.runner_opt, cases.into_iter(), &hooks);
+        report.cov("operator_families_on_the_optimised_runner", json!({"cases": n, "executions": st.executions}));
+        report.violations.extend(st.violations);
+    }
     crate::c12::run_cyclic_family(ctx, &mut report);
     report
 }
